@@ -42,6 +42,14 @@ CHECKS = {
                 text="Generated contracts under all criteria/split/back-end options: every emitted block is priced with an independent table and must be no costlier (and improved if changed); printed totals and CSV savings must equal sums/differences of those figures; the tool's size/gas table is diffed against the independent one over every opcode name.",
                 note="independent table follows the Yellow Paper/EIPs with stated assumptions for dynamic parts (EXP one byte, per-word parts excluded, access-list convention within a block)",
                 ref="DESIGN.md section 3 C08"),
+    "C09": dict(level="exploration", technique="property-based testing through the real CLI entry on shipped and Hypothesis-synthesised documents; oracle = independent reader: skeleton/metadata identity, item well-formedness predicate, re-read idempotence",
+                text="The emitted file is compared with the input outside optimizable segments item by item with all fields, every emitted item is validated (name, canonical PUSH value, DUP/SWAP depth, pseudo-push operand present in the input block) and the output is re-read by the tool's parser; both directions (nothing lost, nothing invented).",
+                note="own reader vf/asm.py; under -partition only default splitting instructions are required in the skeleton",
+                ref="DESIGN.md section 3 C09"),
+    "C17": dict(level="exploration", technique="property-based testing with zero-push-dense blocks x PUSH0 setting x criteria; oracles: emitted-item predicate (JSON and -bl text), specification pricing predicate, independent cost totals, differential run with and without -c",
+                text="Generated blocks that push, fold or derive zeros are optimized with PUSH0 enabled and disabled; emitted items, text output, specification entries and printed totals must follow the chosen setting on both sides; -c runs are compared with the unrestricted run.",
+                note="independent cost table vf/cost.py; inputs never contain an item named PUSH0 (solc spells it PUSH 0)",
+                ref="DESIGN.md section 3 C17"),
 }
 
 NOT_YET = {}
